@@ -91,6 +91,11 @@ type DAScenario struct {
 	P2PThen  []Item `json:"p2p_then"`
 	StopAt   int    `json:"stop_at"`
 	Crash    bool   `json:"crash"` // kill (caches and buffers lost) instead of a clean stop (SaveCache)
+	// Backlog (block index+1; 0 = none): the DA height of that block's header carries, ahead of it, as many
+	// further copies of the header blob as headerInCh has capacity (re-submitted blobs; the retriever hands
+	// over every copy until SyncLoop has marked the header seen) — with SyncLoop held inside a commit the
+	// ingress channel is full when the retriever reaches the blobs behind them, and it has to wait
+	Backlog int `json:"backlog,omitempty"`
 }
 
 type DAResult struct {
@@ -171,6 +176,14 @@ func RunDAScenario(t *testing.T, c *Chain, sc DAScenario, tmp string) *DAResult 
 			return
 		}
 		top := c.Initial + uint64(len(c.Headers)) - 1
+		if b := sc.Backlog; b > 0 && b <= len(c.Headers) && sc.HdrDA[b-1] > 0 {
+			h := sc.HdrDA[b-1]
+			copies := make([][]byte, cap(n.M.VerifHeaderInCh()))
+			for i := range copies {
+				copies[i] = c.HeaderBlobs[b-1]
+			}
+			da.Blobs[h] = append(copies, da.Blobs[h]...)
+		}
 		// ---- first process
 		if sc.HoldAt > 0 {
 			hook.HoldAt = c.Initial + uint64(sc.HoldAt) - 1
@@ -217,6 +230,10 @@ func RunDAScenario(t *testing.T, c *Chain, sc DAScenario, tmp string) *DAResult 
 			}
 		}
 		res.StoppedAt = hook.Stopped
+		if sc.Backlog > 0 && !hook.Stopped && !n.Dead && n.Height() < top {
+			fail("da-ingress-backlog-dropped", fmt.Sprintf("every header and data of the chain is on the DA layer (the DA height of one header also carries %d re-submitted copies of it); the first process scanned the whole DA layer and ran to quiescence but stays at height %d, proposer's height %d",
+				cap(n.M.VerifHeaderInCh()), n.Height(), top))
+		}
 		n.Stop()
 		res.HeightStop = n.Height()
 		if s, ok := n.State(); ok {
@@ -371,6 +388,27 @@ func genDABehind(r *rand.Rand) DAScenario {
 	sc.Scan = int(a) + 1 // DA height 0 (nothing) and 1..a
 	sc.P2PThen = []Item{{T: "h", I: 1}}
 	sc.StopAt = 2
+	sc.Crash = r.Intn(2) == 0
+	return sc
+}
+
+// GenDABacklog: ingress back-pressure.  Block 0 (empty) comes by P2P and SyncLoop is held inside its commit;
+// every other part is on the DA layer, block i at DA height i (data ahead of the header or behind it); the
+// DA height of block 1's header also carries a channel-capacity of re-submitted copies of that header, ahead
+// of everything else at that height.  The retriever scans on while SyncLoop is held; then SyncLoop is
+// released and the first process must reach the proposer's height without a restart.
+func GenDABacklog(r *rand.Rand) DAScenario {
+	spec := GenChain(r, 4, false)
+	nb := 1 + len(spec.Blocks)
+	sc := DAScenario{Chain: spec, HdrDA: make([]uint64, nb), DataDA: make([]uint64, nb)}
+	for i := 1; i < nb; i++ {
+		sc.HdrDA[i] = uint64(i)
+		sc.DataDA[i] = uint64(1 + r.Intn(i))
+	}
+	sc.P2PFirst = []Item{{T: "h", I: 0}}
+	sc.HoldAt = 1
+	sc.Scan = nb + 1
+	sc.Backlog = 2
 	sc.Crash = r.Intn(2) == 0
 	return sc
 }
